@@ -510,9 +510,9 @@ SPECS["C06"] = dict(
 
 def c14_jobs(tier):
     if tier == "quick":
-        return [dict(harness="c06_poison", pattern=r"^fault/.*/faults1$", label="single operator fault at every application", deadline=200, sanitize=True),
+        return [dict(harness="c06_poison", pattern=r"^fault/.*/faults1$|^fault-B/", label="single operator fault at every application (A operator; B product / B solve of a generalized problem)", deadline=200, sanitize=True),
                 dict(harness="c06_poison", pattern=r"^reuse/.*/shape[12]$", label="states an interrupted init()/compute() can leave (poisoned)", deadline=200)]
-    return [dict(harness="c06_poison", pattern=r"^fault/", label="single and double operator faults at every application", deadline=900, sanitize=True),
+    return [dict(harness="c06_poison", pattern=r"^fault/|^fault-B/", label="single and double operator faults at every application", deadline=900, sanitize=True),
             dict(harness="c06_poison", pattern=r"^reuse/", label="poisoned states", deadline=300, sanitize=True)]
 
 
@@ -527,9 +527,9 @@ SPECS["C14"] = dict(
     functions=["SymEigsSolver / GenEigsSolver init, compute, restart with the real Lanczos / Arnoldi (exception crossing factorize_from, expand_basis, init, restart)", "ArnoldiOp::perform_op"],
     bounds={"quick": {"fault positions": "every application of the fault-free run (22-25 symmetric, 11 general)", "operators": "Laplacian, block diagonal (symmetric), integer matrix (general), n=6"},
             "thorough": {"fault positions": "all single faults and all ordered pairs"}},
-    outside=["faults in the B-operator of generalized problems", "SparseRegularInverse::solve throwing through CG (library path)", "shift-and-invert / SVD solver classes"],
+    outside=["pairs of faults in the B-operator", "SparseRegularInverse::solve throwing through CG (library path)", "shift-and-invert / SVD solver classes"],
     assumptions=["the operator is otherwise deterministic"],
-    policy=dict(events="violation", allow_cut=False),
+    policy=dict(events="violation", allow_cut=False, worker_died_is_violation=True),
     technique="fault position as a symbolic choice enumerated by the path explorer on the real solver; sanitizers + bit-wise comparison with the fault-free baseline; poisoned-state independence",
     level_text="exhaustive fault-position enumeration (single, thorough: pairs) on three operator instances plus history-universal state poisoning",
     level_note="fixed operator instances; single-threaded",
